@@ -520,7 +520,7 @@ func (fr *Frame) execInstr(in ssa.Instruction) {
 	case *ssa.ChangeInterface:
 		fr.env[in] = fr.val(in.X)
 	case *ssa.ChangeType:
-		fr.env[in] = fr.val(in.X)
+		fr.env[in] = fr.convertRepr(fr.val(in.X), in.X.Type(), in.Type())
 	case *ssa.Convert:
 		fr.execConvert(in)
 	case *ssa.MultiConvert:
@@ -781,10 +781,10 @@ func (fr *Frame) binop(op token.Token, x, y Term, xt, yt, rt types.Type, pos tok
 }
 
 func (fr *Frame) ifaceEq(x, y Term) Term {
-	if y.S == "nil-iface" {
+	if isNilIfaceTerm(y) {
 		return Eq(app(SInt, "i-typ", x), IntLit(0))
 	}
-	if x.S == "nil-iface" {
+	if isNilIfaceTerm(x) {
 		return Eq(app(SInt, "i-typ", y), IntLit(0))
 	}
 	return Eq(x, y)
@@ -814,7 +814,15 @@ func (fr *Frame) execTypeAssert(in *ssa.TypeAssert) {
 	x := fr.termOf(fr.val(in.X))
 	tm := fr.R.TM
 	var ok, v Term
-	if _, isIface := types.Unalias(in.AssertedType).Underlying().(*types.Interface); isIface {
+	if tp, isTP := types.Unalias(in.AssertedType).(*types.TypeParam); isTP {
+		// dynamic type test against a type parameter: uninterpreted (the instantiation is not known here)
+		s := tm.SortOf(tp)
+		okName, vName := "istp."+sanitize(tp.Obj().Name()), "astp."+sanitize(tp.Obj().Name())
+		fr.R.Sc.DeclareFun(okName, []Sort{SInt}, SBool)
+		fr.R.Sc.DeclareFun(vName, []Sort{SIface}, s)
+		ok = And(Not(Eq(app(SInt, "i-typ", x), IntLit(0))), app(SBool, okName, app(SInt, "i-typ", x)))
+		v = app(s, vName, x)
+	} else if _, isIface := types.Unalias(in.AssertedType).Underlying().(*types.Interface); isIface {
 		if x.Sort != SIface {
 			fr.R.unsupported("type assertion on %s", x.Sort)
 		}
@@ -864,6 +872,8 @@ func (fr *Frame) execConvert(in *ssa.Convert) {
 		fr.env[in] = TV(fr.define(in.Name(), fr.wrap(x, in.Type())))
 	case fs == ts && fs != SSlice:
 		fr.env[in] = TV(x)
+	case isStructType(in.X.Type()) && isStructType(in.Type()):
+		fr.env[in] = fr.convertRepr(fr.val(in.X), in.X.Type(), in.Type())
 	case fs == SSlice && ts == SString:
 		// string(bytes): an uninterpreted function of the backing row and the window
 		es := fr.R.TM.SortOf(from.(*types.Slice).Elem())
@@ -1034,4 +1044,41 @@ func (fr *Frame) mapDelete(m Term, mt *types.Map, k Term) {
 	h.Set(fr.st, dn, fr.define("h", Ite(Eq(m, Nil), domAll, Store(domAll, m, Store(dom, k, False)))))
 	ln := h.Get(fr.st, mapLenComp, ArraySort(SInt, SInt))
 	h.Set(fr.st, mapLenComp, fr.define("h", Ite(Eq(m, Nil), ln, Store(ln, m, Sub(Select(ln, m, SInt), Ite(was, IntLit(1), IntLit(0)))))))
+}
+
+func isStructType(t types.Type) bool {
+	_, ok := types.Unalias(t).Underlying().(*types.Struct)
+	return ok
+}
+
+// convertRepr converts between types with identical underlying types; only by-value structs change representation
+// (each struct type has its own datatype).
+func (fr *Frame) convertRepr(v Val, from, to types.Type) Val {
+	if v.T.S == "" || !isStructType(from) || !isStructType(to) {
+		return v
+	}
+	fsort, tsort := fr.R.TM.SortOf(from), fr.R.TM.SortOf(to)
+	if fsort == tsort {
+		return v
+	}
+	return TV(fr.define("cv", fr.convertStructTerm(v.T, from, to)))
+}
+
+func (fr *Frame) convertStructTerm(x Term, from, to types.Type) Term {
+	if fr.isOpaqueStruct(from) || fr.isOpaqueStruct(to) {
+		fr.R.unsupported("conversion between opaque struct types %s and %s", from, to)
+	}
+	fsi, tsi := fr.R.TM.Struct(from), fr.R.TM.Struct(to)
+	if len(tsi.Fields) == 0 {
+		return fr.R.TM.Zero(to)
+	}
+	args := make([]Term, len(tsi.Fields))
+	for i := range tsi.Fields {
+		a := app(fsi.Fields[i].Sort, fsi.Fields[i].Sel, x)
+		if fsi.Fields[i].Sort != tsi.Fields[i].Sort && isStructType(fsi.Fields[i].Type) {
+			a = fr.convertStructTerm(a, fsi.Fields[i].Type, tsi.Fields[i].Type)
+		}
+		args[i] = a
+	}
+	return app(Sort(tsi.Name), tsi.Ctor, args...)
 }
